@@ -106,7 +106,11 @@ class O2JMap(Map[O2JNoteList, O2JHitList, O2JHoldList, O2JBpmList]):
         for note in notes:
             note.offset = note_measure_dict[note.measure]
             if isinstance(note, O2JHold):  # Special case for LN.
-                note.length = note_measure_dict[note.tail_measure] - note.offset
+                # A plain float: the item setter casts numpy values to the
+                # field's current (possibly integer) dtype
+                note.length = float(
+                    note_measure_dict[note.tail_measure] - note.offset
+                )
 
         # We add the missing first BPM here
         bpms.insert(0, O2JBpm(offset=0, bpm=init_bpm))
